@@ -569,6 +569,10 @@ class SimNet:
         ch = self.world.ch
         if self.frag_mode == 0 or n == 1:
             return n
+        if n > 700:
+            # bulk of a large message in one piece (keeps step counts bounded); its last few hundred
+            # bytes, and whatever follows, are fragmented finely as usual
+            return n - 300 - ch.draw(300, "fragbulk")
         if self.frag_mode == 2:
             k = 1 + ch.draw(4, "frag")
             return min(n, k)
